@@ -132,6 +132,46 @@ fn corpus() -> Vec<(String, String)> {
                         out.push((p.strip_prefix(&root).unwrap_or(&p).to_string_lossy().into_owned(), t));
                     }
                 }
+            } else if p.extension().map_or(false, |x| x == "md") && p.components().any(|c| c.as_os_str() == "docs") {
+                // the language documents: every fenced code block (whole declarations and fragments of every
+                // production the documents describe -- VAR_ACCESS, VAR_CONFIG, RESOURCE, properties, actions, ...)
+                if let Ok(t) = std::fs::read_to_string(&p) {
+                    let rel = p.strip_prefix(&root).unwrap_or(&p).to_string_lossy().into_owned();
+                    let (mut inside, mut block, mut k) = (false, String::new(), 0usize);
+                    for line in t.lines() {
+                        if line.trim_start().starts_with("```") {
+                            if inside {
+                                if !block.trim().is_empty() && block.len() <= 8000 && block.chars().any(|c| c == ';' || c == ':') {
+                                    out.push((format!("{rel}#{k}"), block.clone()));
+                                    k += 1;
+                                }
+                                block.clear();
+                            }
+                            inside = !inside;
+                        } else if inside {
+                            block.push_str(line);
+                            block.push('\n');
+                        }
+                    }
+                }
+            } else if p.extension().map_or(false, |x| x == "rs") && p.components().any(|c| c.as_os_str() == "tests")
+                && p.components().any(|c| matches!(c.as_os_str().to_str(), Some("trust-syntax") | Some("trust-hir"))) {
+                // the front end's own tests: ST texts in raw string literals
+                if let Ok(t) = std::fs::read_to_string(&p) {
+                    let rel = p.strip_prefix(&root).unwrap_or(&p).to_string_lossy().into_owned();
+                    let mut rest = t.as_str();
+                    let mut k = 0usize;
+                    while let Some(a) = rest.find("r#\"") {
+                        let body = &rest[a + 3..];
+                        let Some(b) = body.find("\"#") else { break };
+                        let text = &body[..b];
+                        if text.contains('\n') && text.len() <= 8000 && (text.contains("END_") || text.contains(":=")) {
+                            out.push((format!("{rel}#{k}"), text.to_string()));
+                            k += 1;
+                        }
+                        rest = &body[b + 2..];
+                    }
+                }
             }
         }
     }
